@@ -41,6 +41,10 @@ var classes = []classSpec{
 	{`(?s:.)`, []string{"a", "\n", "日"}},
 	{`\S`, []string{"a", "é", "-"}},
 	{`\W`, []string{" ", "-", "é", "\n"}},
+	// many ranges (a negated class over scattered characters ends in a range that crosses U+FFFF) and astral input
+	{`[^\s"'(),;\[\]{}]`, []string{"a", "é", "\U0001F600", "-", "\U0001F64F", "\uffff", "\U00010000"}},
+	{`[a-cx-z0-37-9_A-CX-Z!-#\x{1F600}-\x{1F64F}é]`, []string{"b", "y", "8", "_", "\U0001F600", "é", "#"}},
+	{`[^\x00-\x{FFFF}]`, []string{"\U0001F600", "\U00010000", "\U0010FFFF"}},
 }
 
 var literals = []string{"a", "b", "c", "ab", "abc", "x", "é", "日本", "ß", ".", "+", "(", ")", "*", "[", " ", "\n", "\r\n", "\"", "'", "<", "&", ">", "-", "0", "1", "12", "=", "\\", "K", "k", "s", "ks", "key", "Sk", "#", "/*", "*/", "${", "}", "`", "\x1b[", "\x7f", "\v", "\a", "\U000E0001"}
